@@ -17,7 +17,7 @@ RULE = ("histories of 1-5 program segments with 0-10 events each on fock (pure a
         "units, swapping two-mode beamsplitters, measurements (post-selected homodyne, MeasureFock), gates with "
         "measured-parameter dependencies, rejected selections (deleted / unknown / negative index, duplicate, foreign "
         "or stale RegRef, empty list, wrong arity, dependency on a deleted mode), engine reset, fresh Program(n) as "
-        "successor, appends to a locked program; after every segment direct back-end calls on every index "
+        "successor, eng.reset() while going on with Program(prev), All(gate) on several modes, shared Operation instances, appends to a locked program, the first program re-run on a new engine; after every segment direct back-end calls on every index "
         "0..created+1, del_mode on copies, and state(modes=positions).  Non-trivial = at least one accepted Del or "
         "New and at least one data-carrying gate; distinct by (backend, events).")
 ASSUMPTIONS = [
@@ -36,7 +36,7 @@ TRUSTED = ["modelled: Program._add_subsystems/_delete_subsystems/_test_regrefs/a
            "compilers do not reorder; checked implicitly by the data fingerprints)"]
 
 PROG_KEYS = ("r", "reg", "refs", "unused", "locked", "initNum", "ncmd", "new")
-END_KEYS = PROG_KEYS + ("gm", "internal", "nstore", "state", "ranReg")
+END_KEYS = PROG_KEYS + ("gm", "internal", "nstore", "state", "ranReg", "skeys")
 
 
 def canon(v):
@@ -71,9 +71,12 @@ def oracle(ctx, hist, real):
         ctx.fail(sig, f"[{be}] {what}", rp)
 
     seg_nonempty = False
+    seg_meas = {}           # index -> "h" (post-selected homodyne, value 0.25) | "f" (MeasureFock) in this segment
     for k, (ev, ob) in enumerate(zip(hist["events"], real)):
         e = ev["e"]
         ctx.oracle_cases += 1
+        if ob.get("alias"):
+            fail("program-aliasing", f"event {k} {ev['e']}: " + "; ".join(ob["alias"]))
         if e in ("new", "del", "use", "meas"):
             ok, family = spec.accepts(ev)
             before = prev_refs
@@ -82,7 +85,10 @@ def oracle(ctx, hist, real):
                     fail("prog-rejects-valid", f"event {k} {ev} raised {ob['r']} although all named modes are live")
                     return tainted
                 newinds = spec.apply(ev)
-                seg_nonempty = True
+                seg_nonempty = seg_nonempty or not (ev.get("all") and not ev["ms"])
+                if e == "meas":
+                    for r_ in ev["ms"]:
+                        seg_meas[reghist.ref_idx(r_)] = "h" if len(ev["ms"]) == 1 else "f"
                 if e == "new" and ob.get("new") != newinds:
                     fail("new-indices", f"event {k}: New({ev['n']}) returned indices {ob.get('new')}, expected {newinds}")
             else:
@@ -160,11 +166,32 @@ def oracle(ctx, hist, real):
                     fail(f"state-modes-mislabelled:{be}", f"event {k}: state(modes={ms}) returned {so}, modes carry {spec.state()}")
                 elif so != exp:
                     fail(f"state-modes-selection:{be}", f"event {k}: state(modes={ms}) returned {so}, expected {exp}")
+            ag = ob.get("again")
+            if isinstance(ag, dict) and (ag.get("gm") != ob["gm"] or ag.get("state") != ob["state"]):
+                fail(f"observation-not-repeatable:{be}", f"event {k}: asking again after the back-end probes gives {ag}, first answer "
+                     f"get_modes {ob['gm']}, state {ob['state']}")
+            rr = ob.get("rerun")
+            if isinstance(rr, dict) and (rr.get("gm") != ob["gm"] or rr.get("state") != ob["state"]):
+                fail(f"rerun-differs:{be}", f"event {k}: the same program on a new engine gives {rr}, first run get_modes {ob['gm']}, "
+                     f"state {ob['state']}")
+            sm_ = ob.get("samples")
+            if isinstance(sm_, dict):
+                if "err" in sm_:
+                    fail(f"samples-raises:{be}", f"event {k}: {sm_}")
+                elif sorted(int(x) for x in sm_) != sorted(seg_meas):
+                    fail(f"samples-index:{be}", f"event {k}: samples_dict has keys {sorted(sm_)}, measured modes {sorted(seg_meas)}")
+                elif any(seg_meas[int(i)] == "h" and abs(v[0] - reghist.UNIT) > 1e-9 for i, v in sm_.items()):
+                    fail(f"samples-index:{be}", f"event {k}: samples_dict {sm_}, post-selected value {reghist.UNIT} expected "
+                         f"under the indices {sorted(i for i, t in seg_meas.items() if t == 'h')}")
+                elif ob.get("samples_shape") not in ([1, len(seg_meas)], [0, 0]) or (ob.get("samples_shape") == [0, 0] and seg_meas):
+                    fail(f"samples-index:{be}", f"event {k}: Result.samples has shape {ob.get('samples_shape')} for {len(seg_meas)} measured modes")
+            seg_meas = {}
             if ob["refs"] != prev_refs or ob["reg"] != live or ob["initNum"] != len(live):
                 fail("handover", f"event {k}: Program(prev) starts with {ob['refs']} / {ob['initNum']}, previous ended with {prev_refs}")
             if len(fails) > n0 and be == "bosonic" and segs_run >= 2 and tainted is None:
                 tainted = k
         elif e == "reset":
+            seg_meas = {}
             spec = reghist.Spec(ev["n"])
             prev_refs = [[i, True] for i in range(ev["n"])]
             segs_run = 0
@@ -213,7 +240,7 @@ def compare(ctx, hist, real, model, upto):
         elif e in ("end", "reset", "resetkeep"):
             keys = END_KEYS if ob["r"] == "ok" else ("r",)
             if e != "end":
-                keys = tuple(x for x in keys if x != "ranReg")
+                keys = tuple(x for x in keys if x not in ("ranReg", "skeys"))
         else:
             keys = PROG_KEYS
         a = {x: canon(mo.get(x)) for x in keys}
